@@ -369,23 +369,24 @@ func c20CLI(c *Ctx) {
 	}
 	vq := c.P.Func("internal/validation", "", "ValidateQuery")
 	if vq != nil {
-		ok := false
+		ok, nAccept := true, 0
 		for _, ret := range ssau.ReturnsOf(vq) {
 			if !ssau.IsNilConst(ssau.ResultValue(ret, 1)) {
 				continue
 			}
+			nAccept++
 			steps, _ := stringChain(ssau.ResultValue(ret, 0))
-			hasTrim, hasCollapse := false, false
+			hasCollapse := false
 			for _, s := range steps {
-				if s.kind == "trim" {
-					hasTrim = true
-				}
 				if s.kind == "collapse" {
 					hasCollapse = true
 				}
 			}
-			ok = hasCollapse && (hasTrim || hasCollapse)
+			if !hasCollapse {
+				ok = false // EVERY accepting exit normalises, not just one of them
+			}
 		}
+		ok = ok && nAccept > 0
 		r.Check(ok, "O-3", "validation.ValidateQuery#collapses-whitespace", c.P.Pos(vq.Pos()), "accepted queries pass strings.Fields + Join(\" \")", "accepted queries are not whitespace-normalised: padded command lines search different strings")
 	}
 }
